@@ -294,6 +294,7 @@ pub fn in_class(class: &str, case: &Case, labels: &[String]) -> bool {
         "unpark_na_unsafe" => unpark_na_unsafe(p),
         "park_unpark_twice" => park_unpark_twice(p),
         "notify_then_park" => notify_then_park(p),
+        "has_yield" => p.has(|o| matches!(o, Op::Yield)),
         "write_under_read_lock" => write_under_read_lock(p),
         "sc_fence_pair" => sc_fence_pair(p),
         "arc_inspect_race" => arc_inspect_race(p),
